@@ -154,7 +154,8 @@ bool Hist::opParamSet() {
     if (oc.threw && rng.chance(50)) {
         // the refused set() must have left the parameter usable: add it to the object (it is then saved/printed/destroyed by later operations)
         p.name("SETPROBE" + std::to_string(rng.range(0, 3)));
-        log.pre("parameter"); Outcome ao; VF_TRY(ao, obj->parameter("PROBES", p)); log.ev("add_param_after_refused_set", "name=" + p.name(), ao); bump("op:add_param_after_refused_set");
+        std::string pg = "PROBES"; if (prev.findGroup(pg) < 0 && prev.groups.size() >= 127) pg = "FORCE_PLATFORM"; if (prev.findGroup(pg) < 0 && prev.groups.size() >= 127) pg = "POINT";   /* no 128th group slot (see DESIGN 9.7) */
+        log.pre("parameter"); Outcome ao; VF_TRY(ao, obj->parameter(pg, p)); log.ev("add_param_after_refused_set", "name=" + p.name(), ao); bump("op:add_param_after_refused_set");
         afterMutator("add_param_after_refused_set", ao);
     }
     if (!oc.threw) {
